@@ -18,6 +18,7 @@ import (
 	"sort"
 	"strings"
 	"sync"
+	"sync/atomic"
 	"syscall"
 
 	"verifharness/vutil"
@@ -359,8 +360,17 @@ func newRunner(init []string) *runner {
 		vutil.Fatalf("init: %v", err)
 	}
 	r.shared = lockedfile.MutexAt(r.mpath)
+	// every third run the data file carries no write permission bits: whoever may open it for writing all the same (its
+	// creator's descriptor, the superuser) is a writer like any other, and readers have to wait for it
+	if atomic.AddInt64(&runnerSeq, 1)%3 == 0 {
+		os.Chmod(r.data, 0o444)
+	} else {
+		os.Chmod(r.data, 0o666)
+	}
 	return r
 }
+
+var runnerSeq int64
 
 func runOne(family, mode string, cfg Config, strat vsched.Strategy, inj Inject) *RunRec {
 	r := newRunner(cfg.Init)
@@ -635,13 +645,24 @@ func main() {
 			col.add(clean)
 			res.Eval(true)
 			nw := 0
+			var stepKinds []string
 			for _, e := range clean.Events {
 				if e.Ev == "op" && e.File == "data" && (e.Op == "writeat" || e.Op == "write" || e.Op == "truncate") {
 					nw++
+					stepKinds = append(stepKinds, e.Op)
+				}
+			}
+			isWrite := false
+			for _, ops := range cfg.Prog {
+				for _, o := range ops {
+					isWrite = isWrite || o.Op == "write"
 				}
 			}
 			for k := 1; k <= nw; k++ {
 				for _, kind := range []string{"fail", "short"} {
+					if isWrite && (stepKinds[k-1] != "truncate" || kind != "fail") {
+						continue // Write: only the truncation under the lock (the copy that follows is documented as not atomic)
+					}
 					rec := runOne("Fault", kind, cfg, &vsched.Replay{}, Inject{N: k, Kind: kind})
 					col.add(rec)
 					res.Eval(true)
@@ -650,6 +671,9 @@ func main() {
 				}
 			}
 			// the function itself reports an error
+			if isWrite {
+				continue
+			}
 			c2 := Config{Prog: Prog{"a1": {{Op: "transform", Kind: "ferr", Tok: "t", V: []string{}}}, "a2": {}, "a3": {}}, Init: cfg.Init}
 			col.add(runOne("Fault", "ferr", c2, &vsched.Replay{}, Inject{Kind: "ferr"}))
 			res.Eval(true)
